@@ -71,6 +71,11 @@ Next ==
 
 Spec == Init /\ [][Next]_vars
 
+\* CONSTRAINT for the deep runs on one database: register it first, then only requests and policy changes
+RequestsOnly ==
+  /\ Len(hist) >= 1 => (hist[1][1] = "register" /\ hist[1][3] = "class_ok" /\ hist[1][2] = db0)
+  /\ \A i \in 2..Len(hist) : hist[i][1] \in {"get", "policy"}
+
 \* a failed instantiation is never retried and never becomes usable
 FailedIsSticky == [][\A n \in Names : dbs[n] = "failed" => dbs'[n] = "failed"]_vars
 \* values are only ever returned by an instantiated database that covers the day
